@@ -173,7 +173,7 @@ fn w_i32_unsigned_abs(x: i32) -> (r: u32) ensures r == (if x >= 0 { x as int } e
     sb.rw('R4', r'cont\.as_bytes\(\)\.to_vec\(\)', 'cont.w_bytes_vec()', expect=1)
     sb.contract("requires cont.bytes().len() <= 0xFFFF_FFFF,\n    ensures res@ == marshal_str(cont.bytes(), is_interned),")
     sb.body_prologue("broadcast use vstd::seq::group_seq_axioms;")
-    sb.insert_at(r'(?m)^\s*bytes\s*$', "    proof { assert(bytes@ =~= marshal_str(cont.bytes(), is_interned)); }", where='before')
+    sb.insert_before_tail("    proof { assert(%s@ =~= marshal_str(cont.bytes(), is_interned)); }" % sb.tail_ident())
     unit.add(sb)
     rb = Snippet(ssrc.fn('raw_string_into_bytes'), 'raw_string_into_bytes')
     rules.strip_vis_attrs(rb)
@@ -181,7 +181,7 @@ fn w_i32_unsigned_abs(x: i32) -> (r: u32) ensures r == (if x >= 0 { x as int } e
     rb.rw('R9', r'vec!\[DataTypePrefix::Str as u8\]', 'w_vec1(DataTypePrefix::Str as u8)', expect=1)
     rb.contract("requires cont@.len() <= 0xFFFF_FFFF,\n    ensures res@ == marshal_bytes(cont@),")
     rb.body_prologue("let ghost cont0 = cont@;")
-    rb.insert_at(r'(?m)^\s*tuple\s*$', "    proof { assert(tuple@ =~= marshal_bytes(cont0)); }", where='before')
+    rb.insert_before_tail("    proof { assert(%s@ =~= marshal_bytes(cont0)); }" % rb.tail_ident())
     unit.add(rb)
     # ---- writer: the code object itself (field order and presence per target version vs. CPython's marshal.c layout) --------------
     ib = Snippet(csrc.fn('into_bytes', impl=r'CodeObj'), 'CodeObj::into_bytes')
@@ -206,22 +206,23 @@ fn w_i32_unsigned_abs(x: i32) -> (r: u32) ensures r == (if x >= 0 { x as int } e
     # ---- writer: tuples of names and of constants (header + elements) ---------------------------------------------------------
     TUP_INV = """invariant
             i <= %(v)s@.len(), %(v)s@.len() <= 0xFFFF_FFFF, %(extra)s
-            tuple@ == tuple_header(%(v)s@.len()) + %(body)s,
+            %(t)s@ == tuple_header(%(v)s@.len()) + %(body)s,
         decreases %(v)s@.len() - i,"""
     for (fname, source, vec, body, elem_pre) in (
             ('strs_into_bytes', ssrc, 'names', 'strs_body(names@.take(i as int))', 'forall|k: int| 0 <= k < names@.len() ==> names@[k].bytes().len() <= 0xFFFF_FFFF,'),
             ('consts_into_bytes', csrc, 'consts', 'consts_body(consts@.take(i as int), python_ver.minor)', '')):
         tb = Snippet(source.fn(fname), fname)
         rules.strip_vis_attrs(tb)
-        tb.rw('R9', r'let mut tuple = vec!\[\];', 'let mut tuple: Vec<u8> = Vec::new();', expect=1)
+        t = tb.tail_ident()   # the local that accumulates the bytes, whatever it is called
+        tb.rw('R9', r'let mut %s = vec!\[\];' % t, 'let mut %s: Vec<u8> = Vec::new();' % t, expect=1)
         tb.rw('R8', r'&mut \((\w+)\.len\(\) as u32\)\.to_le_bytes\(\)\.to_vec\(\)', r'&mut w_u32_le_vec(\1.len() as u32)', expect=1)
         # `for x in vec` (by value) -> indexed loop over the same vector with a clone of each element (Verus has no by-value Vec iteration)
         tb.rw('R4', r'for (\w+) in %s(?:\.into_iter\(\))? \{' % vec, r'let mut i: usize = 0; while i < %s.len() { let \1 = %s[i].clone(); i = i + 1;' % (vec, vec), expect=1)
         tb.contract("requires %s@.len() <= 0xFFFF_FFFF, %s\n    ensures res@ == %s," % (vec, elem_pre, 'strs_enc(names@)' if fname == 'strs_into_bytes' else 'consts_enc(consts@, python_ver.minor)'))
         tb.body_prologue("broadcast use vstd::seq::group_seq_axioms; reveal(strs_enc); reveal(consts_enc);")
-        tb.loop_spec(0, TUP_INV % {"v": vec, "body": body, "extra": elem_pre},
+        tb.loop_spec(0, TUP_INV % {"v": vec, "body": body, "extra": elem_pre, "t": t},
                      body_prologue="proof { assert(%s@.take(i as int + 1).drop_last() =~= %s@.take(i as int)); assert(%s@.take(i as int + 1).last() == %s@[i as int]); }" % (vec, vec, vec, vec))
-        tb.insert_at(r'(?m)^\s*tuple\s*$', "    proof { assert(%s@.take(i as int) =~= %s@); }" % (vec, vec), where='before')
+        tb.insert_before_tail("    proof { assert(%s@.take(i as int) =~= %s@); }" % (vec, vec))
         unit.add(tb)
     unit.raw("} // verus!\n")
     run.sample({"function": "CodeObj::into_bytes", "ensures": "res == 'c' ++ the fields of CPython's marshal layout for the target version, in order (posonlyargcount from 3.8, nlocals up to 3.10, qualname and exceptiontable from 3.11); compound fields by their own writers"})
